@@ -46,7 +46,7 @@ def specAction (props : List String) : Op → Option Action
   | .set _ col (.scalar c) => some ⟨allSel, [col], fun _ _ _ => c⟩
   | .set _ col (.array cs) => some ⟨allSel, [col], fun i _ _ => cs.getD i .nan⟩
   | .map _ col f => some ⟨allSel, [col], fun _ _ old => f.evalD old⟩
-  | .locSet _ mask cols v => some ⟨maskSel mask, cols, fun _ _ _ => v⟩
+  | .locSet _ mask _ cols v => some ⟨maskSel mask, cols, fun _ _ _ => v⟩
   | .locMap _ mask cols f => some ⟨maskSel mask, cols, fun _ _ old => f.evalD old⟩
   | .attrSet _ name (.scalar c) => if props.contains name then some ⟨allSel, [name], fun _ _ _ => c⟩ else none
   | .attrSet _ name (.array cs) =>
@@ -125,6 +125,22 @@ def freshTrace (w : MapW) : List Op → List Bool
   | [] => []
   | op :: ops => freshAtB w op :: freshTrace (step w op).1 ops
 
+/-- the call targets the newest stacker of the chart (or none that exists) -/
+def latestAtB (w : MapW) (op : Op) : Bool :=
+  match op.sid? with
+  | none => true
+  | some sid => decide (w.stackers.length ≤ sid + 1)
+
+/-- `m.stack().x = …`, `s = m.stack(); s.a += 1; s.loc[…] = …; s = m.stack(); …`: repeated re-stacking where only the
+newest stacker is ever assigned through -/
+def Latest (w : MapW) : List Op → Prop
+  | [] => True
+  | op :: ops => latestAtB w op = true ∧ Latest (step w op).1 ops
+
+def latestTrace (w : MapW) : List Op → List Bool
+  | [] => []
+  | op :: ops => latestAtB w op :: latestTrace (step w op).1 ops
+
 /-- well-formed lists: distinct column names, every row has exactly the columns of its frame -/
 def WFList (l : TList) : Prop := l.frame.cols.Nodup ∧ ∀ r ∈ l.frame.rows, keys r.cells = l.frame.cols
 
@@ -149,11 +165,12 @@ def handleRows (sw : SpecW) (sid : Nat) : Nat :=
   | some member => coveredRows sw.tbls member
   | none => 0
 
-/-- chart `k` gets row `k` of the assigned frame, aligned by position to its own stack; charts beyond the frame's
-rows are not assigned -/
+/-- chart `k` gets row `k` of the assigned frame, aligned by label = position: stack position `i` receives `row[i]`,
+NaN beyond the end of the row (`specAction` of an array reads `row.getD i nan`); charts beyond the frame's rows are
+not assigned -/
 def specSetRows (key : String) : List SpecW → List Nat → List (List Cell) → List SpecW
   | sw :: sws, sid :: sids, row :: rows =>
-      specStep sw (.set sid key (.array (alignRow (handleRows sw sid) row))) false :: specSetRows key sws sids rows
+      specStep sw (.set sid key (.array row)) false :: specSetRows key sws sids rows
   | sws, _, _ => sws
 
 def specMapRows (key : String) (f : Fn) : List SpecW → List Nat → List SpecW
@@ -186,6 +203,12 @@ def specSStep (w : SpecSetW) (op : SOp) (failed : Bool) : SpecSetW :=
 def specSTrace (w : SpecSetW) : List (SOp × Bool) → List SpecSetW
   | [] => []
   | (op, failed) :: rest => let s := specSStep w op failed; s :: specSTrace s rest
+
+def specSRun (w : SpecSetW) : List (SOp × Bool) → SpecSetW
+  | [] => w
+  | (op, failed) :: rest => specSRun (specSStep w op failed) rest
+
+def toSpecSet (w : SetW) : SpecSetW := ⟨w.scls, w.maps.map toSpec, w.mstackers⟩
 
 def SOp.ms? : SOp → Option Nat
   | .stack => none
